@@ -7,6 +7,8 @@ use crate::refmodel::dsym::*;
 use crate::refmodel::three_d::*;
 use crate::util::*;
 use rust_dsymbols::delaney2d::toroidal_cover;
+use rust_dsymbols::covers::covers;
+use rust_dsymbols::dsets::DSet;
 use rust_dsymbols::delaney3d::pseudo_toroidal_cover;
 use serde_json::{json, Value};
 use std::collections::BTreeSet;
@@ -20,7 +22,7 @@ pub fn spec() -> Spec {
         case_cap_s: |t| t.pick(600, 7200),
         rule: "family '2d': one case per connected 2-dimensional symbol with curvature 0: every class of D-sets of size <= N x every branching vector over 1..6 (degenerate degrees included); family '3d': every admissible 3-dimensional symbol (spherical tiles and vertex figures by the reference model, branching in {1,2,3,4,6}) on every class of D-sets of size <= M, each under every relabeling (size <= 3; systematic family above) and its dual; family 'corpus': the 20 known-euclidean symbols of the repository's tests under relabelings and dual. Oracle 2d: a result exists, covers the input (searched morphism with equal fibres), is oriented, all v = 1 and s0(d) != s2(d), curvature 0, H1 = Z^2 by textbook presentation + invariant factors. Oracle 3d: a returned cover is oriented, branch-free, covers the input, H1 = [0,0,0], sheet number over the oriented cover in {1,2,3,4,6,8,12,24}; Some/None and sheet number equal across relabelings and the dual; corpus symbols return Some. Non-trivial = a cover is returned.",
         assumptions: &["H1 is computed by the reference model (textbook presentation + i128 elimination with overflow detection); an overflow is reported as 'undecided' in the counters, never as a verdict"],
-        bounds: |t| json!({"dim2_max_size": t.pick(5, 7), "dim2_V": [1,2,3,4,5,6], "dim3_max_size": t.pick(3, 4), "dim3_V": [1,2,3,4,6]}),
+        bounds: |t| json!({"dim2_max_size": t.pick(5, 7), "dim2_V": [1,2,3,4,5,6], "dim3_max_size": t.pick(3, 4), "dim3_V": [1,2,3,4,6], "prism_family": {"base_2d_max_size": t.pick(4, 5)}, "cover_family": {"sheets": t.pick(4, 6), "max_chambers": t.pick(12, 18), "renumberings_per_cover": t.pick(json!("2, existence and sheet number only"), json!("all 9 systematic + dual, every returned cover validated"))}}),
     }
 }
 
@@ -80,6 +82,22 @@ fn check_2d(ctx: &mut Ctx, s: &RS) {
     }
 }
 
+/// existence and sheet number only (the cover itself is validated by `analyse_ptc` on the symbol as given)
+fn ptc_sheets(ctx: &mut Ctx, s: &RS) -> Result<Option<usize>, String> {
+    ctx.ops(1);
+    match ctx.guard(|| pseudo_toroidal_cover(&to_partial_dsym(s)).map(|c| c.size())) {
+        Err(m) => Err(format!("pseudo_toroidal_cover panicked: {}", m)),
+        Ok(None) => Ok(None),
+        Ok(Some(n)) => {
+            let osize = if s.is_oriented() { s.n } else { 2 * s.n };
+            if n % osize != 0 {
+                return Err(format!("sheet number over the oriented cover is {}/{}", n, osize));
+            }
+            Ok(Some(n / osize))
+        }
+    }
+}
+
 /// Ok(Some(sheets over the oriented cover)) / Ok(None) / Err(problem)
 pub fn analyse_ptc(ctx: &mut Ctx, s: &RS) -> Result<Option<(usize, RS)>, String> {
     ctx.ops(1);
@@ -122,10 +140,54 @@ pub fn analyse_ptc(ctx: &mut Ctx, s: &RS) -> Result<Option<(usize, RS)>, String>
 }
 
 fn check_3d(ctx: &mut Ctx, family: &str, s: &RS, must_have: bool) {
+    check_3d_limited(ctx, family, s, must_have, usize::MAX, false);
+}
+
+/// covers (up to 4 [6] sheets, at most 12 [18] chambers) of the small symbols that have a pseudo-toroidal cover:
+/// larger symbols of the same crystallographic groups and of their subgroups, in the numbering `covers`
+/// produces and under systematic renumberings
+fn cover_family(ctx: &mut Ctx) {
+    let tier = ctx.tier;
+    let k = tier.pick(4, 6);
+    let cap = tier.pick(12, 18);
+    for n in 1..=3usize {
+        for s in admissible_symbols(n) {
+            // every worker lists the covers of every base and takes its share of the covers
+            let t0 = std::time::Instant::now();
+            let has = ctx.guard(|| pseudo_toroidal_cover(&to_partial_dsym(&s)).is_some());
+            ctx.add("cpu_ms_cover_family_base_ptc", t0.elapsed().as_millis() as i64);
+            match has {
+                Ok(true) => {}
+                _ => continue, // no cover (or a panic: reported by the main family)
+            }
+            let t0 = std::time::Instant::now();
+            let list = ctx.supply("covers", || covers(&to_partial_dsym(&s), k).iter().map(|c| from_dsym(c)).collect::<Vec<_>>());
+            ctx.add("cpu_ms_cover_family_listing", t0.elapsed().as_millis() as i64);
+            for c in list.into_iter().flatten() {
+                if c.n <= s.n || c.n > cap || c.n <= 4 || !ctx.take() {
+                    continue;
+                }
+                if valid_symbol(&c).is_err() || !c.commutes() || !admissible3d(&c) || c.covers(&s).is_none() {
+                    continue;
+                }
+                ctx.add("cover_family_symbols", 1);
+                let t0 = std::time::Instant::now();
+                check_3d_limited(ctx, "cover", &c, false, tier.pick(2, usize::MAX), !tier.is_thorough());
+                ctx.add("cpu_ms_cover_family_checks", t0.elapsed().as_millis() as i64);
+                if ctx.nviolations() > 0 {
+                    return;
+                }
+            }
+        }
+    }
+}
+
+fn check_3d_limited(ctx: &mut Ctx, family: &str, s: &RS, must_have: bool, max_variants: usize, light_variants: bool) {
     let case = json!({"family": family, "sym": rs_to_json(s)});
     ctx.announce(&case);
     let weight = s.n as u64;
-    let r0 = analyse_ptc(ctx, s);
+    // (light mode: existence and sheet number only; the returned cover is validated in full at the thorough tier)
+    let r0: Result<Option<(usize, usize)>, String> = if light_variants { ptc_sheets(ctx, s).map(|x| x.map(|k| (k, 0))) } else { analyse_ptc(ctx, s).map(|x| x.map(|y| (y.0, y.1.n))) };
     let sheets0 = match &r0 {
         Err(e) => {
             ctx.count(false);
@@ -135,26 +197,32 @@ fn check_3d(ctx: &mut Ctx, family: &str, s: &RS, must_have: bool) {
         Ok(x) => x.as_ref().map(|y| y.0),
     };
     ctx.count(sheets0.is_some());
-    if let Some(k) = sheets0 {
+    if sheets0.is_some() {
         ctx.add("covers_found", 1);
-        ctx.max("max_cover_size", r0.as_ref().unwrap().as_ref().unwrap().1.n as i64);
-        let _ = k;
+        ctx.max("max_cover_size", r0.as_ref().unwrap().as_ref().unwrap().1 as i64);
     }
     if must_have && sheets0.is_none() {
         ctx.violation("corpus", case.clone(), "no pseudo-toroidal cover for a known-euclidean symbol".into(), weight);
     }
     let mut variants: Vec<(String, RS)> = relabelings(s).into_iter().map(|t| ("relabeling".to_string(), t)).collect();
-    variants.push(("dual".into(), s.dual()));
+    if variants.len() > max_variants {
+        // a spread of the systematic renumberings (the reversal is among them)
+        let step = variants.len() / max_variants;
+        variants = variants.into_iter().step_by(step.max(1)).take(max_variants).collect();
+    }
+    if family != "cover" || !light_variants {
+        variants.push(("dual".into(), s.dual()));
+    }
     for (what, t) in variants {
         let vcase = json!({"family": family, "sym": rs_to_json(s), "variant": what, "variant_sym": rs_to_json(&t)});
         ctx.announce(&vcase);
-        match analyse_ptc(ctx, &t) {
+        let res = if light_variants { ptc_sheets(ctx, &t) } else { analyse_ptc(ctx, &t).map(|x| x.map(|y| y.0)) };
+        match res {
             Err(e) => {
                 ctx.violation("pseudo-toroidal-cover", vcase, e, weight);
                 return;
             }
-            Ok(x) => {
-                let sh = x.map(|y| y.0);
+            Ok(sh) => {
                 if sh != sheets0 {
                     ctx.violation("not-invariant", vcase, format!("sheet number over the oriented cover: {:?} for the symbol, {:?} for its {}", sheets0, sh, what), weight);
                     return;
@@ -195,6 +263,34 @@ fn run(ctx: &mut Ctx) {
     for (_, s) in corpus() {
         if ctx.take() {
             check_3d(ctx, "corpus", &s, true);
+        }
+    }    cover_family(ctx);
+    if ctx.nviolations() == 0 {
+        prism_family(ctx);
+    }
+}
+
+/// prisms over every euclidean 2-dimensional symbol of size <= 4 [5] (3 chambers per chamber of the base): all 17
+/// wallpaper groups times the infinite dihedral group, among them the groups with a 6-fold axis whose smallest
+/// symbols are beyond the exhaustive sweep
+fn prism_family(ctx: &mut Ctx) {
+    let tier = ctx.tier;
+    for t in euclidean_2d_symbols(tier.pick(4, 5)) {
+        if !ctx.take() {
+            continue;
+        }
+        let p = match prism_over(&t) {
+            Some(p) if valid_symbol(&p).is_ok() && p.commutes() && admissible3d(&p) => p,
+            _ => {
+                ctx.add("prisms_rejected_by_reference_model", 1);
+                continue;
+            }
+        };
+        ctx.add("prisms", 1);
+        ctx.max("largest_prism", p.n as i64);
+        check_3d_limited(ctx, "prism", &p, false, tier.pick(3, usize::MAX), !tier.is_thorough());
+        if ctx.nviolations() > 0 {
+            return;
         }
     }
 }
